@@ -52,7 +52,7 @@ CHECKS = {
         text='All ordered pairs (thorough: triples) of target archetypes, one per channel through which a scan edits rating state, as -T runs '
              'with 1..3 worker threads in text/JSON/policy mode; every interleaving of the targets\' connection events up to a preemption bound '
              'is executed under a gate scheduler and each target block is compared with a fresh single-target run.',
-        note='Thread switches are explored only at virtual I/O gates (resolve/connect/recv); archetype list bounds the channels covered.',
+        note='Thread switches are explored only at virtual I/O gates (resolve/connect/recv); archetype list bounds the channels covered; threads other than the pool workers and the main thread (none in the current tree) are not scheduled.',
         technique='stateless schedule exploration (preemption-bounded DFS) of the real worker pool under a controlled scheduler, differential oracle',
         design='3/C07'),
     'C08': dict(
@@ -66,7 +66,7 @@ CHECKS = {
              '(truncation at byte offsets, close, stall, reset, garbage, every length field x5, wrong type, debug, duplicate, split, 1-byte '
              'segments, refuse/timeout); thorough adds all pairs with a second message-level fault. Oracle: terminates within op/time bound, '
              'documented status, complete report iff initial handshake well-formed.',
-        note='Virtual clock and op budget stand in for wall time; random DH exponent pinned; environment model mc/vnet.py + mc/peer.py.',
+        note='Virtual clock and op budget stand in for wall time, a process-CPU-time watchdog catches computations that never return to the environment; random DH exponent pinned; environment model mc/vnet.py + mc/peer.py.',
         technique='deviation-bounded exhaustive fault enumeration (stateless exploration of the implementation under a fault injector)',
         design='3/C09'),
     'C10': dict(
